@@ -73,7 +73,7 @@ func runC10(c *harness.Ctx) {
 	c.S.ArmSelect()
 	setBias(false)
 	steerPads(c, append([]int{obfsref.O2MaxPadding + 1, obfsref.O3HalfPadding + 1, obfsref.SSMaxPad + 1}, obfs4PadRanges...)...)
-	kinds := []string{"garbage-handshake", "mutated-exchange", "link-fault", "idle-hour", "garbage-handshake", "mutated-exchange", "link-fault", "socks-garbage", "scramblesuit-chaos", "meek-chaos", "flood", "authenticated-malformed"}
+	kinds := []string{"garbage-handshake", "mutated-exchange", "link-fault", "idle-hour", "garbage-handshake", "mutated-exchange", "link-fault", "socks-garbage", "scramblesuit-chaos", "meek-chaos", "flood", "authenticated-malformed", "app-close"}
 	kind := kinds[t.Draw("kind", len(kinds))]
 	c.Info["kind"] = kind
 	c.Feature("kind-" + kind)
@@ -96,6 +96,8 @@ func runC10(c *harness.Ctx) {
 		c10Flood(c)
 	case "authenticated-malformed":
 		c10AuthMalformed(c)
+	case "app-close":
+		c10Pair(c, "app-close")
 	}
 }
 
@@ -208,6 +210,8 @@ func c10Pair(c *harness.Ctx, mode string) {
 	pipe := []*simnet.Pipe{link.AB, link.BA}[dir]
 	what := ""
 	streamEnds := false
+	closeSide, closeAfter := -1, time.Duration(0)
+	var closeCalled, closeDone bool
 	switch mode {
 	case "mutate":
 		at := int64(t.Draw("at", 12000))
@@ -271,6 +275,12 @@ func c10Pair(c *harness.Ctx, mode string) {
 		pipe.AddFault(f)
 	case "idle":
 		what = "one idle hour after the handshake"
+	case "app-close":
+		// the application of one side closes its connection while its own
+		// reader and writer are in the middle of things
+		closeSide = t.Draw("closeside", 2)
+		closeAfter = time.Duration(t.Draw("closeafter", 3000)) * time.Millisecond
+		what = fmt.Sprintf("the %s application calls Close %v after its handshake", []string{"client", "server"}[closeSide], closeAfter)
 	}
 	c.Info["what"] = what
 	plan := func(l string) []writePlan {
@@ -307,6 +317,15 @@ func c10Pair(c *harness.Ctx, mode string) {
 			sd.dlCleared = sd.under.ReadDeadline().IsZero()
 			if mode == "idle" {
 				c.S.Sleep(time.Hour + time.Duration(t.Draw("idlems", 100000))*time.Millisecond)
+			}
+			if i == closeSide {
+				c.S.Go(nm+"/closer", func() {
+					c.S.Sleep(closeAfter)
+					closeCalled = true
+					conn.Close()
+					closeDone = true
+					c.S.Count("fault.app-close-mid-stream", 1)
+				})
 			}
 			c.S.Go(nm+"/reader", func() {
 				buf := make([]byte, 4096)
@@ -404,6 +423,20 @@ func c10Pair(c *harness.Ctx, mode string) {
 			c.Violate("C10/write-never-returns", "%s with %s: a Write has not returned after 4 virtual hours (stop=%v)", nm, what, stop)
 			return
 		}
+	}
+	if mode == "app-close" && sides[0].hs.err == nil && sides[1].hs.err == nil {
+		c.S.Run(func() bool { return closeDone && sides[0].rdDone && sides[1].rdDone }, 2*time.Minute)
+		switch {
+		case !closeCalled:
+			// the writers were done before the closer's time came
+		case !closeDone:
+			c.Violate("C10/close-never-returns", "%s %s: %s; Close has not returned two virtual minutes later", sides[closeSide].tg.name, sides[closeSide].tg.role, what)
+		case !sides[closeSide].rdDone:
+			c.Violate("C10/read-never-returns", "%s %s: %s; its own pending Read is still blocked two virtual minutes later", sides[closeSide].tg.name, sides[closeSide].tg.role, what)
+		case !sides[1-closeSide].rdDone:
+			c.Violate("C10/read-never-returns", "%s %s: the peer application closed its connection (%s); Read is still blocked two virtual minutes later", sides[1-closeSide].tg.name, sides[1-closeSide].tg.role, what)
+		}
+		return
 	}
 	// when the damaged direction's stream really ended (EOF/RST), the reader on that side must notice
 	fired := c.S.Counters["fault."+simnet.FaultCutEOF]+c.S.Counters["fault."+simnet.FaultCutRST] > 0
